@@ -165,8 +165,10 @@ class Operand(ABC):
         """
         if type(self.right) != str or not INDEX_REGISTER_REGEX.match(self.right):
             raise OperandTypeError("[{}] invalid index register".format(self.operand_string))
-        if self.left == "" and self.right == "PCR":
-            raise OperandTypeError("[{}] PCR requires an offset".format(self.operand_string))
+        if self.right == "PCR" and (self.left == "" or self.left in ["A", "B", "D"]):
+            raise OperandTypeError("[{}] PCR requires a numeric offset or label".format(self.operand_string))
+        if self.operand_string.lstrip("[").startswith("#"):
+            raise OperandTypeError("[{}] an immediate value cannot be indexed".format(self.operand_string))
         if self.left != "" and ("+" in self.right or "-" in self.right):
             raise OperandTypeError("[{}] invalid indexed expression".format(self.operand_string))
 
